@@ -472,6 +472,7 @@ theorem freshInv_evalOp (c : Cfg) (op : Op) (hw : op.wf) (s s' : St) (h : FreshI
   · simp only [Option.some.injEq] at e
     subst e
     cases op with
+    | fail sl => exact ⟨h, Nat.le_refl _⟩
     | insertData q =>
       exact ⟨freshInv_insertSolution (n := s.next) q hw none s [] h (Nat.le_refl _) (bbelow_nil _),
              by simp only [evalInsertData, insertSolution_next]; omega⟩
